@@ -20,6 +20,10 @@ FactorySect.tla + FactoryAsm family C: the PRESENCE of sections -- every subset 
 FactoryParser.tla: the ParameterParser as a long-lived object -- TLC-generated walks of generate_* calls in any order, twice,
       after read() of another file, on files with sections left out: every call equals a fresh parser's, the parser's
       configuration stays as read (harness/fx_parser.py).
+FactoryBin.tla: the [Binning] section x [Observation] x [Instrument] -- which resampling is in force (a written bin_type wins, the
+      documented defaults otherwise), the manual grids of every grid key as exact rationals, `accurate`: through
+      ParameterParser.generate_binning() and through the command-line program (-S / -o) against the library model resampled by
+      the specification's class on the specification's grid (harness/fx_binsect.py).
 """
 import contextlib
 import io
@@ -34,9 +38,10 @@ import tempfile
 import numpy as np
 
 from ..core import Machinery, SPEC, VERIF, run_tlc, close
-from .. import fx_docs, fx_factory as FX, fx_mixins as MX, fx_parser as PZ
+from .. import fx_docs, fx_factory as FX, fx_mixins as MX, fx_parser as PZ, fx_binsect as BS
 
 PY = sys.executable
+BS_KEYS = ('wavelength_grid', 'wavenumber_grid', 'log_wavelength_grid', 'log_wavenumber_grid', 'wavelength_res')
 
 
 # ---------------------------------------------------------------------------- spec directory
@@ -698,8 +703,10 @@ def run(ctx):
                                'value grammar: every value keyword of every selectable class x list lengths 0..3 x numbers/strings/mixed '
                                '(scalar spellings on %s); 1..2 sub-sections under plain / composite (<= %d mixins) / custom selectors of '
                                '[Chemistry] and [Model]; presence of sections: every subset of [Temperature] [Pressure] [Chemistry] [Planet] [Star] left out x every '
-                               'subset of the [Model] layer keys (%s); parser history: walks of %d calls over 15 generate_* methods + read() on %d files'
-                               % ('one class per kind' if q else 'every class', 1 if q else 2, 'one model type' if q else 'every model type', 2 if q else 3, 3 if q else 4),
+                               'subset of the [Model] layer keys (%s); parser history: walks of %d calls over 15 generate_* methods + read() on %d files; '
+                               '[Binning]: absent / native / observed / manual x 5 grid keys x %d (start, end, n) triples x `accurate` x [Observation] none / 3- / 4-column '
+                               'file / self x [Instrument] none / snr'
+                               % ('one class per kind' if q else 'every class', 1 if q else 2, 'one model type' if q else 'every model type', 2 if q else 3, 3 if q else 4, 2 if q else 3),
                       hash_seeds=[1, 2] if q else [1, 2, 3, 4])
     ctx.assumptions = ['the committed table harness/data/documented_keywords.json is the documentation (extractor: harness/fx_docs.py)',
                        'constructor arguments are observed by signature-preserving wrappers installed from outside the repository',
@@ -739,8 +746,10 @@ def run(ctx):
         shutil.rmtree(sd, ignore_errors=True)
         sd = make_spec_dir(FX.gen_reg_module(reg, mix, entries, doc, waived=waived, waived_keys=waived_keys, extra=mixextra, val_rot=ctx.seed))
         # 2. every configuration, design level
-        r = run_tlc('MC_Factory', 'MC_Factory_%s.cfg' % ctx.tier, spec_dir=sd, coverage=True)
-        ctx.add_tlc('exhaustive', r)
+        # (one run checks the invariants on every configuration and prints them: EX_ = MC_ + Export)
+        r = run_tlc('MC_Factory', 'EX_Factory_%s.cfg' % ctx.tier, spec_dir=sd, coverage=True, workers=1)
+        ctx.add_tlc('exhaustive+export', r)
+        exh = r
         if r.violated:
             raise Machinery('Factory spec violates %s on the generated registry\n%s' % (r.violated, r.error_trace))
         for a in ('Resolve', 'Create'):
@@ -790,8 +799,7 @@ def run(ctx):
             if not [v for v in valvecs if v['shape'] == shape and not v['custom']] or not [v for v in valvecs if v['shape'] == shape and v['custom']]:
                 raise Machinery('value grammar: no built-in / custom configuration of shape %s exported' % shape)
         # 4. binding A: exported configurations through the parser under several hash seeds
-        ex = tlc(ctx, 'export', 'MC_Factory', 'EX_Factory_%s.cfg' % ctx.tier, sd, counts=False, workers=1)
-        vecs = ex.tagged('VEC')
+        vecs = exh.tagged('VEC')
         if not vecs:
             raise Machinery('no configuration exported')
         for v in vecs:
@@ -864,6 +872,22 @@ def run(ctx):
                 fu.result()
         ctx.note('%d of %d TLC-generated walks on one long-lived ParameterParser (%d generate_* calls, each compared with a fresh parser of the same file; '
                  'the parser configuration compared with the file as read after every step)' % (nw, len(walks), nc))
+        # 5c. the [Binning] section x [Observation] x [Instrument]: the resampling in force and its grid (FactoryBin)
+        br = ctx.check_spec('binning-section', 'FactoryBin', 'MC_FactoryBin_%s.cfg' % ctx.tier, workers=1, need_actions=('Select', 'Build'))
+        with ThreadPoolExecutor(2) as pool:     # (the two expected-counterexample variants run while the configurations are replayed)
+            refuted = [pool.submit(ctx.expect_refuted, 'binning-observation-overrides-native', 'FactoryBin', 'MC_FactoryBin_obsoverrides_refuted.cfg',
+                                   'WrittenBinTypeWins', workers=1),
+                       pool.submit(ctx.expect_refuted, 'binning-wavelength-grid-linear-in-wavenumber', 'FactoryBin', 'MC_FactoryBin_linearinwn_refuted.cfg',
+                                   'GridAsDocumented', workers=1)]
+            binvecs = br.tagged('BIN')
+            if not [v for v in binvecs if v['bt'] == 'native' and v['obs'].startswith('file')] or {v['key'] for v in binvecs if v['bt'] == 'manual'} != set(BS_KEYS):
+                raise Machinery('binning section: the exported configurations do not cover native x observation / every grid key')
+            nbp, nbc, bmodel = BS.run(ctx, binvecs, tmp, xsec_dir(tmp), q)
+            for fu in refuted:
+                fu.result()
+        ctx.note('%d [Binning] configurations: %d manual ones through ParameterParser.generate_binning() (class, grid = the exact documented grid at %g, resampled values = the '
+                 'library resampler on that grid), %d through taurex.taurex.main() on a %s model (-S and Output/Spectra = the library model resampled as the specification says, 1e-12)'
+                 % (len(binvecs), nbp, BS.GRID_RTOL, nbc, bmodel))
         # 6. assembled models through the CLI
         ar = tlc(ctx, 'assemblies', 'FactoryAsm', 'FactoryAsm.cfg', sd, workers=1)
         asms = ar.tagged('ASM')
@@ -960,7 +984,15 @@ def replay(ctx, violations):
                 cands.setdefault((c['kind'], k), []).append(c['name'])
         for viol in violations:
             v = viol['vector'] or {}
-            if v.get('sections') or 'history' in v:       # presence of sections in-process / a walk on one long-lived parser
+            if v.get('binroute'):       # a [Binning] configuration through the parser / the program
+                import pickle
+                xd = xsec_dir(tmp)
+                if v['binroute'] == 'parser':
+                    with open(os.path.join(xd, 'H2O.pickle'), 'rb') as f:
+                        BS.run_parser_route(ctx, [v], tmp, np.asarray(pickle.load(f)['wno'], dtype=float))
+                else:
+                    BS.run_cli_route(ctx, [v], tmp, xd, ctx.seed, model=v.get('model'))
+            elif v.get('sections') or 'history' in v:       # presence of sections in-process / a walk on one long-lived parser
                 cf = ClassFactory()
                 classes = {k.__name__: k for attr in FX.KIND_ATTR.values() for k in getattr(cf, attr)}
                 if v.get('sections'):
